@@ -608,14 +608,48 @@ example : (let rules := (bindRules {} specsPrio).getD []
       specLt r1.parts r2.parts = true ∨ specLt r2.parts r1.parts = true)) := by
   decide +kernel
 
+def specsTie : List RuleSpec :=
+  [ { toks := [.slash, .var (.string 1 none none) "s".toList], endpoint := "s".toList },
+    { toks := [.slash, .var .uuid "u".toList], endpoint := "u".toList } ]
+
+/-- **the tie hypothesis is necessary (negation witness).** Without `hdecisive` the statement is false on
+the unchanged code: `/<string:s>` and `/<uuid:u>` have the same weight (100) and the same literal
+decoration, so neither is more specific; both admit `/12345678-1234-5678-1234-567812345678`, and the
+matcher returns whichever was added first. (Same for two rules with the same pattern, or `<int>` next
+to `<float>` where both could match.) -/
+theorem insertion_order_irrelevant_full_false :
+    ¬ (∀ (rules rules' : List Rule) (q : Req) (input : List Str) (r r' : Rule) (vs vs' : List Str),
+        rules.Perm rules' → (∀ x ∈ rules, x.strict = true) →
+        (dfs q (buildRoot rules) input []).res = .found r vs →
+        (dfs q (buildRoot rules') input []).res = .found r' vs' → r = r') := by
+  intro H
+  let rules := (bindRules {} specsTie).getD []
+  let q : Req := ⟨"GET".toList, false⟩
+  let input := segments [] "/12345678-1234-5678-1234-567812345678".toList
+  have hw : (match (dfs q (buildRoot rules) input []).res, (dfs q (buildRoot rules.reverse) input []).res with
+      | .found r _, .found r' _ => r.idx == 0 && r'.idx == 1 && rules.all (·.strict)
+      | _, _ => false) = true := by decide +kernel
+  cases h1 : (dfs q (buildRoot rules) input []).res with
+  | none => simp [h1] at hw
+  | slash => simp [h1] at hw
+  | found r vs =>
+    cases h2 : (dfs q (buildRoot rules.reverse) input []).res with
+    | none => simp [h1, h2] at hw
+    | slash => simp [h1, h2] at hw
+    | found r' vs' =>
+      simp only [h1, h2, Bool.and_eq_true, beq_iff_eq, List.all_eq_true] at hw
+      have := H rules rules.reverse q input r r' vs vs' (List.reverse_perm rules).symm (fun x hx => hw.2 x hx) h1 h2
+      rw [this] at hw
+      omega
+
 -- OPEN (P1): insertion_order_irrelevant at full strength — "for rule lists that are permutations of each
 -- other and have pairwise distinct part keys where they overlap, `matchSM` is equal". Proved above, for
 -- arbitrary permutations of the insertion order: the search is `None` for one order iff for the other
 -- (hence NotFound / 405 by the characterisations, which mention membership only), and a found rule
 -- and its groups are the same whenever the specificity order decides between the directly admitting
 -- rules (strict rules). Missing: deriving that decisiveness from "pairwise distinct part keys"
--- (two different parts of equal weight, e.g. `<int:x>` vs `<float:y>`, are a genuine tie that
--- insertion order breaks — found by the stream as well), the non-strict admission forms, and the
+-- (two different parts of equal weight are a genuine tie that insertion order breaks:
+-- `insertion_order_irrelevant_full_false`), the non-strict admission forms, and the
 -- bookkeeping that `mkMap` numbers rules by position.
 
 end Wz.Props.C03
